@@ -5,5 +5,5 @@ CONSTANTS
   Tier = "quick"
   Exports <- MCExports
   Defaults <- MCDefaults
-INVARIANTS Complete NoDuplicate Accepted Shape EvalOK
+INVARIANTS Complete NoDuplicate Accepted Shape EvalOK BundleOK
 CHECK_DEADLOCK FALSE
